@@ -103,7 +103,7 @@ def mix_opaque(I):
         parts = []
         for k in sorted(kw):
             v = kw[k]
-            parts.append('%s=%s' % (k, v.key() if isinstance(v, Rat) else repr(v)))
+            parts.append('%s=%s' % (k, repr(v)))
         name = 'MIX<%s|%s>' % (method, ','.join(parts))
         return Elem(I_.D.sym(name))
     I.opaque_funcs['pmutt.mixture._get_mix_quantity'] = handler
